@@ -127,6 +127,22 @@ ExpectedIds(fx, lang, stdmode) ==
               [] OTHER -> acc
     IN  FoldLeft(Step, [stack |-> <<>>, owner |-> <<>>, ids |-> {}, inenum |-> FALSE], [x \in 1..Len(ds) |-> x]).ids
 
+(* Comment attachment.  NAMED DEVIATION of the implementation: the pending comment block is a list *)
+(* SHARED with the parser of an imported file (parser.py parse_child passes self.comment_block), and *)
+(* an import statement does not collect it -- so comment lines standing immediately above an import *)
+(* statement become comments of the FIRST declaration of the imported file, when nothing but comment *)
+(* lines precedes that declaration.                                                               *)
+ImportSites(fx) ==
+    {<< y, z >> \in (1..Len(tr.files)) \X (1..200) :
+        z <= Len(tr.files[y].decls) /\ tr.files[y].decls[z].d = "import" /\ tr.files[y].decls[z].file = tr.files[fx].name}
+Inherited(fx) ==
+    IF fx = tr.main \/ ImportSites(fx) = {} THEN 0
+    ELSE LET site == CHOOSE s \in ImportSites(fx) : \A o \in ImportSites(fx) : s[1] < o[1] \/ (s[1] = o[1] /\ s[2] <= o[2])
+         IN  CommentsAbove(tr.files[site[1]].kinds, tr.files[site[1]].decls[site[2]].line)
+OwnedComments(fx, line) ==
+    LET own == CommentsAbove(tr.files[fx].kinds, line)
+    IN  IF own = line - 1 THEN own + Inherited(fx) ELSE own
+
 Check(e) ==
     CASE e.ev = "Outcome" ->
             IF cs.status = "rejected" /\ cs.err.kind = "out-of-model" THEN "skip:out-of-model"
@@ -154,6 +170,12 @@ Check(e) ==
                         IF WordCol(toks, e.word) # e.col THEN "definition-column"
                         ELSE IF e.indent # -99 /\ Indent(toks, d.line) # e.indent THEN "definition-indent"
                         ELSE ""))
+      [] e.ev = "Comments" ->
+            \* BEYOND THE LISTED PROPERTIES: which comment lines a definition owns
+            With(DefIn(e.file, e.path), LAMBDA d :
+                IF d.k = "none" THEN "no-such-definition"
+                ELSE IF e.n # OwnedComments(FileIdx(e.file), d.line) THEN "comment-attachment"
+                ELSE "")
       [] e.ev = "RefPos" ->
             IF WordCol(FileLayout(e.file)[e.line], e.word) # e.col THEN "reference-column" ELSE ""
       [] e.ev = "Warnings" ->
